@@ -60,22 +60,28 @@ def main():
     md = os.path.join(wt, 'MUTANTS.md')
     if os.path.exists(md):
         shutil.copy(md, os.path.join(out, 'AGENT_NOTES.md'))
-    # -- run the checks against /repo with the change applied
-    rc, o = sh('git status --porcelain', '/repo')
-    if o.strip():
-        print('/repo is not clean:', o); return 2
-    rc, o = sh('git apply %s' % os.path.join(out, 'patch.diff'), '/repo')
-    if rc != 0:
-        print('patch does not apply to /repo', o); return 2
+    # -- run the checks against a scratch copy of /repo's HEAD with the change applied (never /repo itself here,
+    #    so that work on /repo can go on; the registered checks themselves always run on /repo)
+    scratch = '/tmp/seedrepo-%s' % sid
+    sh('git worktree remove --force %s; git worktree add --detach -q %s HEAD' % (scratch, scratch), '/repo')
+    rc, o = sh('git apply %s' % os.path.join(out, 'patch.diff'), scratch)
     caught = {}
+    if rc != 0:
+        print('patch does not apply to the current /repo HEAD (needs porting):', o[-300:])
+        sh('git worktree remove --force %s' % scratch, '/repo')
+        meta['needs_porting'] = True
+        json.dump(meta, open(os.path.join(out, 'meta.json'), 'w'), indent=1)
+        return 3
+    env2 = 'GOVC_REPO=%s GOVC_OUT=/tmp/seedout-%s GOVC_EVIDENCE=/tmp/seedout-%s/evidence' % (scratch, sid, sid)
     try:
         for c in checks:
-            rc, o = sh('./check %s' % c, '/verif', timeout=3600)
+            rc, o = sh('%s ./check %s' % (env2, c), '/verif', timeout=3600)
             vio = [l for l in o.splitlines() if l.startswith('VIOLATION')]
             caught[c] = {'rc': rc, 'violations': vio[:5], 'n': len(vio), 'summary': o.strip().splitlines()[-1] if o.strip() else ''}
             print('  check %s: rc=%d, %d VIOLATION lines%s' % (c, rc, len(vio), (' e.g. ' + vio[0]) if vio else ''))
     finally:
-        sh('git checkout -- .', '/repo')
+        sh('git worktree remove --force %s' % scratch, '/repo')
+        shutil.rmtree('/tmp/seedout-%s' % sid, ignore_errors=True)
     meta['checks'] = caught
     meta['detected_by'] = [c for c, v in caught.items() if v['rc'] == 1]
     old = {}
